@@ -15,6 +15,7 @@ import (
 	"strings"
 	"sync"
 	"testing"
+	"unicode/utf8"
 
 	"github.com/AsaiYusuke/jsonpath"
 	"pgregory.net/rapid"
@@ -27,6 +28,7 @@ type Case struct {
 	Property  string         `json:"property"`
 	Check     string         `json:"check"`
 	Path      string         `json:"path,omitempty"`
+	PathRaw   []byte         `json:"path_raw,omitempty"` // set when Path is not valid UTF-8 (JSON cannot carry it)
 	AST       *gen.Path      `json:"ast,omitempty"`
 	Texts     []gen.StepText `json:"texts,omitempty"`
 	Doc       *gen.DNode     `json:"doc,omitempty"`
@@ -327,6 +329,9 @@ type TB interface {
 // fails the test.
 func Fail(t TB, c *Case, format string, args ...any) {
 	c.Note = fmt.Sprintf(format, args...)
+	if !utf8.ValidString(c.Path) {
+		c.PathRaw = []byte(c.Path)
+	}
 	if p := os.Getenv("VERIF_FAIL_OUT"); p != "" {
 		b, _ := json.MarshalIndent(c, "", " ")
 		_ = os.WriteFile(p, b, 0o644)
@@ -353,8 +358,16 @@ func Register(check string, fn func(c *Case, st *Stats) string) {
 	replayers[check] = fn
 }
 
+// Restore undoes the JSON encoding of fields JSON cannot carry faithfully.
+func (c *Case) Restore() {
+	if len(c.PathRaw) > 0 {
+		c.Path = string(c.PathRaw)
+	}
+}
+
 // RunCase runs the registered check of the case.
 func RunCase(c *Case, st *Stats) string {
+	c.Restore()
 	fn, ok := replayers[c.Check]
 	if !ok {
 		return "harness: no replayer for check " + c.Check
